@@ -112,9 +112,11 @@ def pil_save(e, s, recv, a, k):
     return [(None, s)]
 
 
-def iterm2_unit(method, term, src, override=None):
-    """override: the per-call `method` argument as spelled by the caller; the image's own effective method is then another one"""
-    tag = f"{method},{term},src={src}" + (f",override={override}" if override else "")
+def iterm2_unit(method, term, src, override=None, src_mode="RGB", alpha_kind="float"):
+    """override: the per-call `method` argument as spelled by the caller; the image's own effective method is then another one.
+    src_mode / alpha_kind: the source image's mode and the kind of the alpha option (threshold / colour string / None), for the
+    read-from-file gate: the file is sent as it is only when no alpha option can change what is shown"""
+    tag = f"{method},{term},src={src}" + (f",override={override}" if override else "") + (f",mode={src_mode},alpha={alpha_kind}" if (src_mode, alpha_kind) != ("RGB", "float") else "")
 
     @unit(("C01", "C03", "C11", "C20"), f"iterm2:ITerm2Image._render_image[{tag}]")
     def u(ctx, method=method, term=term, src=src):
@@ -157,8 +159,9 @@ def iterm2_unit(method, term, src, override=None):
         eng.methods[("ITerm2Image", "_get_render_size")] = lambda e, s, recv, a, k: [((rw * cw, rh * ch), s)]
         eng.methods[("ITerm2Image", "_get_minimal_render_size")] = lambda e, s, recv, a, k: [((mw, mh), s)]
         eng.closed_classes.add("PIL.Image")
+        eng.closed_only["PIL.Image"] = {"filename", "fp", "format"}
         mode_in = z3.Int("src_mode")       # index into the modes the gate distinguishes
-        fields = {"mode": "RGB", "format": "PNG", "open": True, "role": "source"}
+        fields = {"mode": src_mode, "format": "PNG", "open": True, "role": "source"}
         if src == "pil-file":
             fields["filename"] = "IMG_FILENAME"
         img0 = st.new("PIL.Image", fields)
@@ -230,9 +233,17 @@ def iterm2_unit(method, term, src, override=None):
         mix = z3.Bool("mix")
         st.env.update(self=self_, img=img0, alpha=Opaque("alpha"), frame=(False if method == "anim" else z3.Bool("frame")), method=override, mix=mix, compress=z3.Int("compress"))
         # `alpha` only matters in the read-from-file gate (isinstance(alpha, float)) and img.mode membership tests
-        st.env["alpha"] = z3.Real("alpha_threshold")
+        st.env["alpha"] = {"float": z3.Real("alpha_threshold"), "hex": "#a1b2c3", "#": "#", "None": None}[alpha_kind]
         outs = run_function(eng, ctx.fn(ITERM, "ITerm2Image._render_image"), st)
         for kind, val, s in outs:
+            if method == "whole":
+                # the read-from-file gate (C03): the source file itself is transmitted only when that shows the same picture as a
+                # render would: reading from file enabled, a still image, not downscaled, and no alpha option can affect the result
+                as_is = [r for r in s.ghost["opened"] if s.H(r)["kind"] == "file"]
+                no_alpha_effect = src_mode in ("1", "L", "RGB", "HSV", "CMYK") or (alpha_kind == "float" and src_mode not in ("P", "PA"))
+                if as_is:
+                    eng.oblige("C03:file-sent-as-it-is-only-when-no-alpha-option-can-change-the-picture,not-downscaled,still,reading-enabled", s,
+                               And(no_alpha_effect, z3.Bool("read_from_file"), Not(animated) if is_sym(animated) else not animated, ow * oh <= (rw * cw) * (rh * ch)), prop="C03", kind="exit", replay="C03.file_gate")
             # ---- C11: every stream the function opened is closed again on every exit; the caller's image is closed only via _close_image
             for r in s.ghost["opened"]:
                 if s.H(r)["kind"] == "file" or kind == "return":
@@ -281,3 +292,7 @@ for _meth in ("lines", "whole", "anim"):
             iterm2_unit(_meth, _term, _src)
     for _ov in (_meth.upper(), _meth.capitalize()):
         iterm2_unit(_meth, "iterm2", "file", override=_ov)
+for _sm in ("RGB", "RGBA", "LA", "P", "L"):
+    for _ak in ("float", "hex", "#", "None"):
+        if (_sm, _ak) != ("RGB", "float"):
+            iterm2_unit("whole", "iterm2", "file", src_mode=_sm, alpha_kind=_ak)
